@@ -141,6 +141,8 @@ type TCPConn struct {
 	rdl, wdl time.Time
 	window   int
 	lostOne  bool // a write after the peer closed has already been accepted and lost
+	rstSeen  bool // the reset has been reported to one operation already (the kernel reports it once)
+	linger0  bool // SetLinger(0): Close aborts the connection
 }
 
 func (c *TCPConn) ID() string { return c.id }
@@ -208,10 +210,14 @@ func (c *TCPConn) Read(b []byte) (int, error) {
 		c.in.size -= n
 		W.log(c.id, "read", n, b[:n], nil)
 		return n, nil
-	case c.in.rst:
+	case c.in.rst && !c.rstSeen:
+		c.rstSeen = true
 		err := opErr("read", "tcp", c.remote, os.NewSyscallError("read", syscall.ECONNRESET))
 		W.log(c.id, "read", 0, nil, err)
 		return 0, err
+	case c.in.rst:
+		W.log(c.id, "eof", 0, nil, nil)
+		return 0, io.EOF
 	case c.in.fin:
 		W.log(c.id, "eof", 0, nil, nil)
 		return 0, io.EOF
@@ -224,7 +230,7 @@ func (c *TCPConn) Read(b []byte) (int, error) {
 
 func (c *TCPConn) Write(b []byte) (int, error) {
 	vm.Block("net.Write", func() bool {
-		if c.closed || c.out.rst || c.peer.closed || expired(c.wdl) {
+		if c.closed || c.out.rst || c.in.rst || c.peer.closed || expired(c.wdl) {
 			return true
 		}
 		return c.window <= 0 || c.out.size < c.window
@@ -235,13 +241,20 @@ func (c *TCPConn) Write(b []byte) (int, error) {
 		err := opErr("write", "tcp", c.remote, ErrClosed)
 		W.log(c.id, "write", 0, nil, err)
 		return 0, err
-	case c.out.rst || (c.peer.closed && c.lostOne):
+	case c.in.rst && !c.rstSeen:
+		// the peer aborted the connection: reported once, as a reset
+		c.rstSeen = true
+		err := opErr("write", "tcp", c.remote, os.NewSyscallError("write", syscall.ECONNRESET))
+		W.log(c.id, "write", 0, nil, err)
+		return 0, err
+	case c.in.rst || c.out.rst || (c.peer.closed && c.lostOne):
 		err := opErr("write", "tcp", c.remote, os.NewSyscallError("write", syscall.EPIPE))
 		W.log(c.id, "write", 0, nil, err)
 		return 0, err
 	case c.peer.closed:
 		// accepted by the local kernel, answered by RST: data lost
 		c.lostOne = true
+		c.in.rst, c.rstSeen = true, true // the peer's kernel answers with RST; the next write sees EPIPE
 		W.log(c.id, "write-lost", len(b), b, nil)
 		return len(b), nil
 	case c.window > 0 && c.out.size >= c.window:
@@ -263,8 +276,8 @@ func (c *TCPConn) Close() error {
 		return opErr("close", "tcp", c.remote, ErrClosed)
 	}
 	c.closed = true
-	if c.in.size > 0 {
-		c.out.rst = true // unread data: the kernel answers with RST instead of FIN
+	if c.in.size > 0 || c.linger0 {
+		c.out.rst = true // unread data or linger 0: RST instead of FIN
 	} else {
 		c.out.fin = true
 	}
@@ -320,7 +333,7 @@ func (c *TCPConn) SetKeepAlivePeriod(time.Duration) error { return nil }
 func (c *TCPConn) SetNoDelay(bool) error                  { return nil }
 func (c *TCPConn) SetReadBuffer(int) error                { return nil }
 func (c *TCPConn) SetWriteBuffer(int) error               { return nil }
-func (c *TCPConn) SetLinger(int) error                    { return nil }
+func (c *TCPConn) SetLinger(sec int) error                { c.linger0 = sec == 0; return nil }
 func (c *TCPConn) File() (*os.File, error)                { return nil, errors.New("vnet: no file") }
 
 // Unread reports the bytes queued towards this side and not yet read.
